@@ -346,6 +346,10 @@ func runDequeue(c *Ctx) {
 				if cn, ok := ObjOf(info, be.Y).(*types.Const); ok && cn == transferring && transferring != nil {
 					return be.Op == token.EQL, true
 				}
+				// `Status != QUEUED`: the same as gone-or-served where the tree shows that every member of the queue has status QUEUED
+				if cn, ok := ObjOf(info, be.Y).(*types.Const); ok && cn.Name() == "ReceiverStatusQueued" && queueMembersAreQueued(p) {
+					return be.Op == token.NEQ, true
+				}
 				return false, false
 			}
 			if v, ok := settled(e); ok {
@@ -1359,4 +1363,137 @@ func runWgOrder(c *Ctx) {
 			}
 		})
 	}
+}
+
+// queueMembersAreQueued: the non-test code of internal/app shows, step by step, that a receiver in SnapshotSender.queue has
+// Status == ReceiverStatusQueued (all under SnapshotSender.mu, which R-LOCKSET decides):
+//   (1) every call of the function that appends to the queue is reached behind `<state>.Status = ReceiverStatusQueued`;
+//   (2) every other assignment of a Status constant is (a) under a condition that implies Status != Queued, (b) in a function
+//       that takes the receiver off the queue (re-assigns the queue from a slice of it / a filtered copy), or (c) under the
+//       ownership test of a running transfer (`active[..] == slot`, or the finished-while-leaving form that asks for Status == Failed):
+//       a receiver that owns a slot was popped before it got it, and an accept of a transferring receiver returns early.
+func queueMembersAreQueued(p *Program) bool {
+	okAll, nAssign, nEnq := true, 0, 0
+	var enqueuers []*FuncInfo
+	for _, f := range p.FuncsIn("internal/app") {
+		if f.Body == nil || strings.HasSuffix(p.Fset.Position(f.Pos()).Filename, "_test.go") {
+			continue
+		}
+		info := f.Info()
+		InspectNoLits(f.Body, func(m ast.Node) bool {
+			as, ok := m.(*ast.AssignStmt)
+			if !ok || len(as.Lhs) != 1 || len(as.Rhs) != 1 {
+				return true
+			}
+			if sel, ok := ast.Unparen(as.Lhs[0]).(*ast.SelectorExpr); ok && sel.Sel.Name == "queue" {
+				if call, ok := ast.Unparen(as.Rhs[0]).(*ast.CallExpr); ok {
+					if id, ok := ast.Unparen(call.Fun).(*ast.Ident); ok && id.Name == "append" && len(call.Args) >= 2 {
+						if s0, ok := ast.Unparen(call.Args[0]).(*ast.SelectorExpr); ok && s0.Sel.Name == "queue" {
+							enqueuers = append(enqueuers, f)
+						}
+					}
+				}
+			}
+			_ = info
+			return true
+		})
+	}
+	isEnq := func(g *FuncInfo) bool {
+		for _, e := range enqueuers {
+			if e == g {
+				return true
+			}
+		}
+		return false
+	}
+	for _, f := range p.FuncsIn("internal/app") {
+		if f.Body == nil || strings.HasSuffix(p.Fset.Position(f.Pos()).Filename, "_test.go") {
+			continue
+		}
+		info := f.Info()
+		statusConst := func(e ast.Expr) string {
+			if cn, ok := ObjOf(info, e).(*types.Const); ok && strings.HasPrefix(cn.Name(), "ReceiverStatus") {
+				return cn.Name()
+			}
+			return ""
+		}
+		// (1)
+		spec := &PassSpec{SkipDefer: true, Vias: []Via{{Stmt: func(g *FuncInfo, n ast.Node) (string, bool) {
+			if as, ok := n.(*ast.AssignStmt); ok && len(as.Lhs) == 1 && len(as.Rhs) == 1 {
+				if sel, ok := ast.Unparen(as.Lhs[0]).(*ast.SelectorExpr); ok && sel.Sel.Name == "Status" && statusConst(as.Rhs[0]) == "ReceiverStatusQueued" {
+					return "queued", true
+				}
+			}
+			return "", false
+		}}}}
+		f.CFG().Calls(func(r NodeRef, call *ast.CallExpr) {
+			if g := p.CalleeInfo(info, call); g != nil && isEnq(g) && !isEnq(f) {
+				nEnq++
+				if !spec.Passed(f, r, "queued") {
+					okAll = false
+				}
+			}
+		})
+		// does f take receivers off the queue?
+		dequeues := false
+		InspectNoLits(f.Body, func(m ast.Node) bool {
+			as, ok := m.(*ast.AssignStmt)
+			if !ok || len(as.Lhs) != 1 || len(as.Rhs) != 1 {
+				return true
+			}
+			if sel, ok := ast.Unparen(as.Lhs[0]).(*ast.SelectorExpr); ok && sel.Sel.Name == "queue" {
+				switch r := ast.Unparen(as.Rhs[0]).(type) {
+				case *ast.SliceExpr:
+					dequeues = true
+				case *ast.Ident:
+					_ = r
+					dequeues = true // a filtered copy
+				}
+			}
+			return true
+		})
+		// (2)
+		InspectNoLits(f.Body, func(m ast.Node) bool {
+			as, ok := m.(*ast.AssignStmt)
+			if !ok || len(as.Lhs) != 1 || len(as.Rhs) != 1 {
+				return true
+			}
+			sel, ok := ast.Unparen(as.Lhs[0]).(*ast.SelectorExpr)
+			if !ok || sel.Sel.Name != "Status" {
+				return true
+			}
+			if t := info.TypeOf(sel.X); t == nil || !strings.HasSuffix(strings.TrimPrefix(t.String(), "*"), "ReceiverState") {
+				return true
+			}
+			v := statusConst(as.Rhs[0])
+			if v == "ReceiverStatusQueued" {
+				return true
+			}
+			nAssign++
+			if v == "" {
+				okAll = false // a computed status
+				return true
+			}
+			good := dequeues
+			for _, is := range enclosingIfs(f.Body, as) {
+				if !(is.Body.Pos() <= as.Pos() && as.End() <= is.Body.End()) {
+					continue
+				}
+				cs := types.ExprString(is.Cond)
+				for _, a := range Implied(is.Cond, true) {
+					if be, ok := ast.Unparen(a.E).(*ast.BinaryExpr); ok && a.Val && be.Op == token.NEQ && statusConst(be.Y) == "ReceiverStatusQueued" {
+						good = true // (a)
+					}
+				}
+				if strings.Contains(cs, "active[") || strings.Contains(cs, "finishedWhileLeaving") {
+					good = true // (c)
+				}
+			}
+			if !good {
+				okAll = false
+			}
+			return true
+		})
+	}
+	return okAll && nAssign > 0 && nEnq > 0
 }
